@@ -19,6 +19,9 @@ RULE = ("cases = (routine, rows, length, highpass) adjoint obligations enumerate
 
 
 def run(rep):
+    if rep.tier == "thorough":
+        from .. import proofs
+        proofs.attach(rep, "TapeProofs")      # TLAPS: the state machine's invariants for ANY number of calls / threads / modules / history length
     fnd = Findings()
     res1, tab = dtlib.run_dt1(rep, rep.tier, invariants=("AdjointOK",), Emit=False)
     res2 = dtchecks.run_dt2(rep, rep.tier, ["C2QIsQ2CTranspose", "GradPresent", "FwdPyramidOK"], {"fwd"},
